@@ -224,4 +224,7 @@ def run(tier):
         ck.closed_fail.append("R2 positive control: non-empty type-only arm in the fixture not reported")
     ck.note("positive control: %d type reads and %d non-empty type-only arms reported in the fixture crate" % (len(creads), len(carms)))
     ck.assume("erasable nodes are reachable only through fields (no side tables keyed by node identity)")
+    # ---- R4 front-end clause: identifier-like token kinds are names everywhere Identifier is
+    import identkinds
+    identkinds.rule(fx, ck)
     return ck.finish()
